@@ -132,23 +132,29 @@ def sort_of(t):
     elif isinstance(t, SetT):
         s = z3.ArraySort(sort_of(t.elem), z3.BoolSort())
     elif isinstance(t, OptT):
-        d = z3.Datatype('Opt_' + _safe(t.inner.key()))
-        d.declare('none')
-        d.declare('some', ('val', sort_of(t.inner)))
+        nm = 'Opt_' + _safe(t.inner.key())
+        d = z3.Datatype(nm)
+        d.declare('none_' + nm)
+        d.declare('some_' + nm, ('val_' + nm, sort_of(t.inner)))
         s = d.create()
         _DT[k] = s
     elif isinstance(t, TupT):
-        d = z3.Datatype('Tup_' + _safe(k))
-        d.declare('mk', *[('f%d' % i, sort_of(it)) for i, it in enumerate(t.items)])
+        nm = _safe(k)
+        d = z3.Datatype(nm)
+        d.declare('mk_' + nm, *[('f%d_%s' % (i, nm), sort_of(it)) for i, it in enumerate(t.items)])
         s = d.create()
         _DT[k] = s
     elif isinstance(t, DictT):
         # (domain, values) pair
-        d = z3.Datatype('Dict_' + _safe(k))
-        d.declare('mk',
-                  ('dom', z3.ArraySort(sort_of(t.k), z3.BoolSort())),
-                  ('vals', z3.ArraySort(sort_of(t.k), sort_of(t.v))))
+        nm = _safe(k)
+        d = z3.Datatype(nm)
+        d.declare('mk_' + nm,
+                  ('dom_' + nm, z3.ArraySort(sort_of(t.k), z3.BoolSort())),
+                  ('vals_' + nm, z3.ArraySort(sort_of(t.k), sort_of(t.v))))
         s = d.create()
+        s.mk = getattr(s, 'mk_' + nm)
+        s.dom = getattr(s, 'dom_' + nm)
+        s.vals = getattr(s, 'vals_' + nm)
         _DT[k] = s
     else:
         raise TypeError('no sort for %r' % (t,))
@@ -156,25 +162,41 @@ def sort_of(t):
     return s
 
 
+def _nm(t):
+    return _safe(t.key()) if not isinstance(t, OptT) else 'Opt_' + _safe(t.inner.key())
+
+
 def opt_none(t):
-    return sort_of(t).none
+    return getattr(sort_of(t), 'none_' + _nm(t))
 
 
 def opt_some(t, z):
-    return sort_of(t).some(z)
+    return getattr(sort_of(t), 'some_' + _nm(t))(z)
 
 
 def opt_is_none(t, z):
-    return sort_of(t).is_none(z)
+    return getattr(sort_of(t), 'is_none_' + _nm(t))(z)
 
 
 def opt_val(t, z):
-    return sort_of(t).val(z)
+    return getattr(sort_of(t), 'val_' + _nm(t))(z)
 
 
 def tup_mk(t, zs):
-    return sort_of(t).mk(*zs)
+    return getattr(sort_of(t), 'mk_' + _nm(t))(*zs)
 
 
 def tup_get(t, z, i):
-    return getattr(sort_of(t), 'f%d' % i)(z)
+    return getattr(sort_of(t), 'f%d_%s' % (i, _nm(t)))(z)
+
+
+def dict_mk(t, dom, vals):
+    return getattr(sort_of(t), 'mk_' + _nm(t))(dom, vals)
+
+
+def dict_dom(t, z):
+    return getattr(sort_of(t), 'dom_' + _nm(t))(z)
+
+
+def dict_vals(t, z):
+    return getattr(sort_of(t), 'vals_' + _nm(t))(z)
